@@ -453,7 +453,14 @@ def run(tier: str, seed: int) -> int:
 
     pterms, pmeta = [], []
     n_valid = 0
+    import time
+    secs = {}
+    t_prev, fam_prev = time.time(), None
     for fam, ls in inputs:
+        now = time.time()
+        if fam_prev is not None:
+            secs[fam_prev] = secs.get(fam_prev, 0.0) + now - t_prev
+        t_prev, fam_prev = now, fam.split(":")[0]
         text = "\n".join(ls)
         ls = text.split("\n")
         oc, pr = P.compile_real(text)
@@ -484,7 +491,9 @@ def run(tier: str, seed: int) -> int:
             pl = Player(st, dist["play"])
             dist["play"]["stories"] += 1
             dist["play"]["paths"] += pl.exhaustive(depth if fam != "repo-file" else min(depth, 3), cap)
-            pl.random_walks(rng, n_walks, walk_len)
+            if fam not in ("generated-default-chains", "call-shape-matrix"):
+                # (every call site of these two families lies within the exhaustive depth: hub -> caller -> target)
+                pl.random_walks(rng, n_walks, walk_len)
             for sig, (path, msg) in pl.found.items():
                 chk.report(f"c12:{sig}", f"playing the compiled story along choices {path}: {msg}", dict(replay, path=path, error=msg))
         if len(chk.cov["samples"]) < 3 and fam == "generated-playable":
@@ -517,6 +526,7 @@ def run(tier: str, seed: int) -> int:
     chk.cov["disagreements_found"] = n_dis
     chk.cov["rule"] = ("one case = one source text; non-trivial = the real compiler accepted it (only accepted stories are "
                        "subject to C12); distinct = by source text")
+    dist["seconds_by_family_compile_validate_play"] = {k: round(v, 1) for k, v in secs.items()}
     dist["default_chains"] = dict(dstats, family=(
         "passages with 1-4 parameters whose defaults refer to earlier parameters (the previous one = chains, any earlier "
         "one, two of them; arithmetic, displays, conditional expressions) or are literals, called with k positional "
